@@ -910,7 +910,7 @@ func (in *Interp) lvalue(e ast.Expr) *Cell {
 			sv, ok2 := base.(*Struct)
 			if !ok || !ok2 {
 				if _, isNil := base.(NilVal); isNil {
-					in.fail(x, "field access through a nil pointer on a live path")
+					in.crash(x, "field access through a nil pointer")
 				}
 				in.fail(x, "field selection on %T", base)
 			}
@@ -941,7 +941,7 @@ func (in *Interp) lvalue(e ast.Expr) *Cell {
 		switch b := base.(type) {
 		case *Array:
 			if k < 0 || int(k) >= len(b.E) {
-				in.fail(x, "array index %d out of range on a live path", k)
+				in.crash(x, "array index %d out of range", k)
 			}
 			return b.E[k]
 		case *Slice:
@@ -953,9 +953,13 @@ func (in *Interp) lvalue(e ast.Expr) *Cell {
 		}
 		in.fail(x, "index on %T", base)
 	case *ast.StarExpr:
-		p, ok := in.expr(x.X).(*Ptr)
+		pv := in.expr(x.X)
+		p, ok := pv.(*Ptr)
 		if !ok {
-			in.fail(x, "dereference of a nil or unknown pointer on a live path")
+			if _, isNil := pv.(NilVal); isNil {
+				in.crash(x, "nil pointer dereference")
+			}
+			in.fail(x, "dereference of an unknown pointer (%T)", pv)
 		}
 		return p.To
 	}
@@ -1081,6 +1085,11 @@ func (in *Interp) Try(f func()) (err error) {
 				err = e
 			case SplitRequest:
 				err = e
+			case Panic:
+				if e.Cond == 0 {
+					e.Cond = in.live
+				}
+				err = e
 			default:
 				panic(r)
 			}
@@ -1104,4 +1113,9 @@ func (in *Interp) NamedType(rel, name string) types.Type {
 		return nil
 	}
 	return o.Type()
+}
+
+// crash reports a definite runtime panic of the interpreted code under the current live condition.
+func (in *Interp) crash(n ast.Node, f string, a ...interface{}) {
+	panic(Panic{Why: fmt.Sprintf("%s: %s", in.pos(n), fmt.Sprintf(f, a...)), Cond: in.live})
 }
